@@ -166,34 +166,30 @@ def window_tensor(psi, w0, n):
     return T
 
 
-def sector_vector(sites, k, rng, dtype=complex):
-    """Generic (all amplitudes non-zero) npc tensor in a charge sector: the one of the basis state in which the
-    x-th site of each kind is in state x % dim, with the last site raised by k."""
+def sector_vector(sites, idx, rng):
+    """Generic (all allowed amplitudes non-zero) npc tensor in the charge sector of the basis state `idx`."""
     import tenpy.linalg.np_conserved as npc
-    chinfo = sites[0].leg.chinfo
-    ncell = len({id(s) for s in sites})
-    idx = [(i // ncell + (k if i == len(sites) - 1 else 0)) % s.dim for i, s in enumerate(sites)]
-    qtotal = chinfo.make_valid(sum(s.leg.to_qflat()[x] for x, s in zip(idx, sites)))
-    if dtype is complex:
-        func = lambda shape: rng.uniform(0.3, 1.0, shape) * np.exp(2j * np.pi * rng.uniform(size=shape))  # noqa: E731
-    else:
-        func = lambda shape: rng.uniform(0.3, 1.0, shape) * rng.choice([-1.0, 1.0], shape)  # noqa: E731
-    T = npc.Array.from_func(func, [s.leg for s in sites], dtype=dtype, qtotal=qtotal, labels=['p%d' % i for i in range(len(sites))])
+    qtotal = sites[0].leg.chinfo.make_valid(sum(s.leg.to_qflat()[x] for x, s in zip(idx, sites)))
+    func = lambda shape: rng.uniform(0.3, 1.0, shape) * np.exp(2j * np.pi * rng.uniform(size=shape))  # noqa: E731
+    T = npc.Array.from_func(func, [s.leg for s in sites], dtype=complex, qtotal=qtotal, labels=['p%d' % i for i in range(len(sites))])
     return T / npc.norm(T)
 
 
 def finite_state(chain, L, k, seed, form=None, norm=1.0, low_rank=False):
-    """(MPS, dense source vector) of a generic state of a charge sector; `low_rank`: product of two halves."""
+    """(MPS, dense source vector) of a generic state of the k-th charge sector: the sector of the basis state in which
+    the x-th site of each kind is in state x % dim, with the last site raised by k.
+    `low_rank`: product of generic states of the first two and of the other sites (smaller bond dimensions)."""
     from tenpy.networks.mps import MPS
     import tenpy.linalg.np_conserved as npc
     cell = make_cell(chain)
     sites = [cell[i % len(cell)] for i in range(L)]
-    rng = np.random.default_rng([seed, L, k, int(low_rank)])
-    if low_rank:  # smaller bond dimensions: (generic state of the first 2 sites) x (generic state of the rest)
-        a, b = sector_vector(sites[:2], k, rng), sector_vector(sites[2:], k + 2, rng)
+    idx = [(i // len(cell) + (k if i == L - 1 else 0)) % s.dim for i, s in enumerate(sites)]
+    rng = np.random.default_rng([seed, L, k, int(low_rank), sorted(CHAINS).index(chain)])
+    if low_rank:
+        a, b = sector_vector(sites[:2], idx[:2], rng), sector_vector(sites[2:], idx[2:], rng)
         T = npc.outer(a, b.replace_labels(b.get_leg_labels(), ['p%d' % i for i in range(2, L)]))
     else:
-        T = sector_vector(sites, k, rng)
+        T = sector_vector(sites, idx, rng)
     psi = MPS.from_full(sites, T, unit_cell_width=L)
     if form is not None:
         psi.convert_form(form)
@@ -210,7 +206,7 @@ def infinite_state(chain, seed, norm=1.0):
     L = spec['L']
     sites = [cell[i % len(cell)] for i in range(L)]
     chinfo = sites[0].leg.chinfo
-    rng = np.random.default_rng([seed, 77, L])
+    rng = np.random.default_rng([seed, 77, sorted(IMPS).index(chain)])
     legs = [npc.LegCharge.from_qflat(chinfo, spec['bonds'][b % L], 1).sort(bunch=True)[1] for b in range(L + 1)]
     func = lambda shape: rng.uniform(0.3, 1.0, shape) * np.exp(2j * np.pi * rng.uniform(size=shape))  # noqa: E731
     Bs = [npc.Array.from_func(func, [legs[i], sites[i].leg, legs[i + 1].conj()], dtype=complex, qtotal=spec['qtotal'][i],
